@@ -87,3 +87,5 @@ TRUSTED = [
 ]
 
 ASSUMPTIONS = ["C03 contracts: precondition m >= 1 (a Jacobian with zero rows is outside the property)"]
+
+VALIDATE_ALGEBRAIC_PRIMS = True  # [V] the algebraic primitive contracts are sampled against real torch on every run
